@@ -279,7 +279,7 @@ def build_units(tier: str) -> list[Unit]:
     for h in HANDLERS:
         b = "at most 2 random DTC records" if h == "read_dtc_information" else ""
         units.append(Unit(f"handler/{h}", handler_harness(h), max_paths=50000, bounded=b))
-    for k in ("raw", "dsc", "rdbi", "tp", "reset", "wdbi"):
+    for k in ("raw", "dsc", "rdbi", "rdbi-list2", "rdbi-list3", "tp", "reset", "wdbi"):
         units.append(Unit(f"default-rules/{k}", default_rule_harness(k), max_paths=50000))
     # handle_request hands the received bytes to UDSRequest.parse_dynamic: its contract (total,
     # keeps the bytes) is discharged against its body here as well (units shared with C01)
@@ -311,6 +311,10 @@ def native_replay(unit: str, obligation: str, model: dict) -> tuple[bool, str]:
                   bytes([0x22]) + a.to_bytes(2, "big") + b.to_bytes(2, "big")
                   for a in (0xF186, 0x0001, 0x0002, 0x0100, 0x1234, 0xF190)
                   for b in (0xF190, 0x0003, 0x4321)],
+              "default-rules/rdbi-list": [
+                  bytes([0x22]) + b"".join(x.to_bytes(2, "big") for x in ids)
+                  for ids in ((0x1234, 0xF186), (0xF186, 0x1234), (0x0001, 0x0002, 0xF186),
+                              (0xF190, 0xF186, 0x0001), (0x0001, 0x0002))],
               "handler/security_access": [bytes([0x27, 1]), bytes([0x27, 2, 1, 2])],
               "handler/read_dtc": [bytes([0x19, 2, 0xFF]), bytes([0x19, 1, 0xFF])]}
     reqs = next((v for k, v in probes.items() if unit.startswith(k)), None) or \
@@ -322,7 +326,7 @@ def native_replay(unit: str, obligation: str, model: dict) -> tuple[bool, str]:
             p_identifier=0.5, p_service=1.0, mandatory_services=[0x10, 0x22])
         for seed in range(1, 9):
             # identifier-level units: a model that supports many identifiers
-            srv = sv.RandomUDSServer(seed, dense) if "identifier" in unit else \
+            srv = sv.RandomUDSServer(seed, dense) if "identifier" in unit or "rdbi" in unit else \
                 sv.RandomUDSServer(seed)
             await srv.setup()
             for raw in reqs:
